@@ -28,7 +28,7 @@ BATTERY = [
 ]
 # asserts on the constructor graph that are discharged by facts established earlier on every path (one symbol, one reason)
 ASSERT_EXC = {
-    ('elftools/elf/structs.py', 'ELFStructs.__init__', 'elfclass == 32 or elfclass == 64'):
+    ('elftools/elf/structs.py', 'ELFStructs.__init__', 'elfclass in (32, 64)'):      # canonical form of elfclass == 32 or elfclass == 64 (N22)
         '_identify_file assigns only the constants 32 and 64 to elfclass before ELFStructs is built (checked: K-ASSERT witness)',
 }
 
